@@ -47,6 +47,16 @@ TRUSTED_BASE_COMMON = [
 ]
 
 
+def env_replace():
+    """VERIF_REPLACE="pkg/file.go=/tmp/x/file.go,..." : what-if substitution of /repo files through the overlay
+    (used only for mutation-sensitivity experiments; never set by the registered commands)."""
+    r = {}
+    for item in filter(None, os.environ.get("VERIF_REPLACE", "").split(",")):
+        dst, src = item.split("=", 1)
+        r[os.path.join(REPO, dst)] = src
+    return r
+
+
 def sh(cmd, cwd=None, env=None, timeout=None, input=None):
     e = dict(os.environ)
     if env:
@@ -261,6 +271,7 @@ class Ctx:
             ov["Replace"][os.path.join(REPO, pkg, dst)] = src
         for dst, src in (replace or {}).items():
             ov["Replace"][os.path.join(REPO, dst)] = src
+        ov["Replace"].update(env_replace())
         ovp = os.path.join(self.tmp, "overlay-%s.json" % re.sub(r"\W", "_", pkg + run))
         with open(ovp, "w") as f:
             json.dump(ov, f)
@@ -277,6 +288,7 @@ class Ctx:
         ov = {"Replace": {}}
         for dst, src in files.items():
             ov["Replace"][os.path.join(REPO, pkg, dst)] = src
+        ov["Replace"].update(env_replace())
         ovp = os.path.join(self.tmp, "overlay-b-%s.json" % re.sub(r"\W", "_", pkg))
         with open(ovp, "w") as f:
             json.dump(ov, f)
@@ -291,6 +303,7 @@ class Ctx:
         ov = {"Replace": {}}
         for dst, src in files.items():
             ov["Replace"][os.path.join(REPO, pkg, dst)] = src
+        ov["Replace"].update(env_replace())
         ovp = os.path.join(self.tmp, "overlay-c-%s.json" % re.sub(r"\W", "_", pkg))
         with open(ovp, "w") as f:
             json.dump(ov, f)
